@@ -40,7 +40,7 @@ def check(run, tier, seed, replay=None, only=None):
     def mc(cfg):
         return lambda: core.tlc("MC_PlanCache.tla", cfg, workers=4, timeout=1500, heap="8g")
 
-    flavours = ["rel"] if quick else ["rel", "cache1", "cache2"]
+    flavours = ["rel", "cache1"] if quick else ["rel", "cache1", "cache2"]
     maxlen = 4 if quick else 6
 
     def drv(flavour, mode, family, shard, nshards):
@@ -81,6 +81,9 @@ def check(run, tier, seed, replay=None, only=None):
     djobs = []
     nsh = 2 if quick else 6
     for fl in flavours:
+        if quick and fl != "rel":   # the configured capacity is honoured (a quarter of the sequences; all of them in thorough)
+            djobs += [(fl, "seqs", "C", 0, 4), (fl, "seqs", "R", 1, 4), (fl, "random", "C", 0, 4)]
+            continue
         for fam in ("C", "R"):
             for s in range(nsh):
                 djobs.append((fl, "seqs", fam, s, nsh))
